@@ -283,6 +283,15 @@ def withFeatureFails (cache dominance : Bool) (fails : List String) : List Strin
   fails ++ (if cache then bad.map (fun s => "C09:caching solver: " ++ s) else [])
         ++ (if dominance then bad.map (fun s => "C10:solver with the dominance checker: " ++ s) else [])
 
+/-- C17 on a solver's own gap() (a solver may override the trait's default method); `gapT` = `g <float tokens>` or empty -/
+def gapFails (lb ub : Int) (gapT : List String) : List String :=
+  match gapT with
+  | "g" :: g =>
+    (match parseFOut g with
+     | some x => if phiGap lb ub x then [] else [s!"C17:gap() of the solver breaks the property for its bounds lb = {lb}, ub = {ub}: {join g}"]
+     | none => if g == ["panic"] then [s!"C17:gap() of the solver panics for its bounds lb = {lb}, ub = {ub}"] else [])
+  | _ => []
+
 def failNote (fails : List String) : String :=
   if fails.isEmpty then "" else join (fails.map (fun s => "F:" ++ (s.splitOn ":").head! ++ " [" ++ s ++ "]"))
 
@@ -292,7 +301,7 @@ def seqEngine (c i : List String) : Option Res := do
     let (fam, _) ← parseFam famT
     let cfg ← parseSCfg cfgParts
     match splitAt "|" i with
-    | [outT, solT, _gap, tapeT] =>
+    | [outT, solT, gapT, tapeT] =>
       match outT with
       | [ex, bv, lb, ub, explored, polls] =>
         let lb ← int? lb; let ub ← int? ub; let explored ← nat? explored; let _ := polls
@@ -311,6 +320,10 @@ def seqEngine (c i : List String) : Option Res := do
         -- C15: with long arcs the pooled solver must behave like the others.  A wrong value in a run WITH the threshold cache is what
         -- the open finding D5 produces (the re-enqueued root is pruned by the cache): same key as the non-termination; without cache
         -- D5 can only loop, so a wrong value there is something else
+        -- C17 on the solver's own gap() (a solver may override the trait's default method)
+        let fails := match parseFOut gapT with
+          | some g => if phiGap lb ub g then fails else s!"C17:gap() of the solver breaks the property for its bounds lb = {lb}, ub = {ub}: {join gapT}" :: fails
+          | none => if gapT == ["panic"] then s!"C17:gap() of the solver panics for its bounds lb = {lb}, ub = {ub}" :: fails else fails
         let fails := if cfg.kind == 2 && !(allImpacted fam) then
             fails ++ (fails.filter (fun s => s.startsWith "C01:" || s.startsWith "C02:reported solution" || s.startsWith "C02:several")).map
               (fun s => (if cfg.cache then "C15:pooled-long-arcs (with cache) " else "C15:long arcs, no cache: ") ++ s)
